@@ -165,6 +165,12 @@ def run_random(spec, acc, focus):
     try:
         for h in range(spec['n_hist']):
             ms = random_mesh_spec(rng)
+            force_grading = focus == 'C02' and h == 0 and spec['n_steps'] > 12
+            if force_grading:
+                # the class op:grading is required by C02; at 2% per step some seeds never drew it (seed 6, quick tier: INCONCLUSIVE).
+                # The first history of every shard is therefore on a shipped curve with one time slab and grades at step 12.
+                ms = {'curve': random.Random(spec['rseed'] ^ 0x5eed).choice(['UnitSquare', 'PiSquare', 'LShape', 'Circle', 'UnitInterval']),
+                      'time_grid': [0.0, 1.0]}
             ls = LockStep(ms)
             log.take()
             bias = rng.choice([0.2, 0.5, 0.8])
@@ -172,6 +178,8 @@ def run_random(spec, acc, focus):
             for step in range(spec['n_steps']):
                 L = ls.leaves()
                 u = rng.random()
+                if force_grading and step == 12 and len(L) < 400:
+                    u = 0.99
                 try:
                     if u < 0.86 or len(L) > 1500:
                         i = rng.randrange(len(L))
